@@ -28,14 +28,30 @@ NUMS = [0, -1, 1, 2**31, 2**63, -2**63 - 1, 10**30, 0.5, -0.0, 1e300, 1.5e-300, 
 ALNUM = ['a', 'abc', 'A1', 'x9y', 'hello', 'Z']
 
 
+def _prime(ft, kind):
+    """Leave the formatter singletons in the state a previous rendering left them in: a diff without ANSI colour whose last
+    printed string is an edited string ending in an insertion ('ins') or a removal ('rem')."""
+    import graphtage
+    from graphtage import json as gj
+    from graphtage.printer import Printer
+    a, b = ({"id": 7, "name": "abc"}, {"id": 7, "name": "abcd"}) if kind == 'ins' else (["release 10"], ["release 1"])
+    try:
+        d = gj.build_tree(a).diff(gj.build_tree(b))
+        ft.get_default_formatter().print(Printer(gt._KeepOpen(), ansi_color=False, quiet=True), d)
+    except Exception:
+        pass        # (rendering JSON trees with every formatter is C13's business)
+
+
 def _roundtrip(job):
-    fmt, doc, suffix = job
+    fmt, doc, suffix = job[:3]
     import graphtage
     from graphtage.printer import Printer
     fails = []
     tf = gt.TempFiles()
     try:
         ft = graphtage.FILETYPES_BY_TYPENAME[fmt]
+        if len(job) > 3 and job[3]:
+            _prime(ft, job[3])
         src = _dump(fmt, doc)
         p1 = tf.write(src, suffix, binary=isinstance(src, bytes))
         t1 = ft.build_tree(p1, graphtage.BuildOptions())
@@ -62,8 +78,11 @@ def _roundtrip(job):
 
 def _tag(fails, job):
     for f in fails:
-        f['input'] = {'fmt': job[0], 'doc': repr(job[1])[:300]}
-        f['replay'] = {'kind': 'roundtrip', 'fmt': job[0], 'doc': job[1] if job[0] != 'xml' else None, 'suffix': job[2]}
+        primed = job[3] if len(job) > 3 else None
+        if primed:
+            f['what'] += f" [after a non-colour diff ending in a string {'insertion' if primed == 'ins' else 'removal'} was rendered by the same formatter]"
+        f['input'] = {'fmt': job[0], 'doc': repr(job[1])[:300], 'primed': primed}
+        f['replay'] = {'kind': 'roundtrip', 'fmt': job[0], 'doc': job[1] if job[0] != 'xml' else None, 'suffix': job[2], 'primed': primed}
     return fails
 
 
@@ -126,7 +145,7 @@ def witnesses(func_result, ob, repo_root, tier):
 def replay(entry, repo_root):
     r = entry.get('replay') or {}
     if r.get('kind') == 'roundtrip' and r.get('doc') is not None:
-        f = _roundtrip((r['fmt'], r['doc'], r['suffix']))
+        f = _roundtrip((r['fmt'], r['doc'], r['suffix'], r.get('primed')))
         return f[0]['what'] if f else None
     return None
 
@@ -149,6 +168,9 @@ def bounded(tier, seed, repo_root):
         jobs.append(('csv', rows, '.csv'))
     for _ in range(n // 2):
         jobs.append(('xml', _xml_doc(rnd), '.xml'))
+    # the same round trips after the formatter singletons were used for a non-colour diff ending in an edited string
+    primed = [j + (k,) for j in rnd.sample(jobs, min(len(jobs), n)) for k in ('ins', 'rem')]
+    jobs = jobs + primed
     fails = [f for fs in pmap(_roundtrip, jobs, repo_root, chunksize=4, job_timeout=60, on_timeout=timeout_failure('C12')) for f in fs]
     # complete check of the per-character escape function
     if tier == 'quick':
